@@ -131,6 +131,7 @@ let check inp obs =
   let st = (probe.[1] = '1', probe.[2] = '1') and dfix = probe.[3] = '1' in
   let db = ref [] in
   let inj_tbl : (string, byte list) Hashtbl.t = Hashtbl.create 256 in
+  let persisted : (bool * tnode) list ref = ref [] in
   let past : (string * ((string * string) list * (string * (string * string) list) list)) list ref = ref [] in
   let prop_bad = ref [] and model_bad = ref [] in
   let tags = Hashtbl.create 16 in
@@ -211,8 +212,17 @@ let check inp obs =
           | Some sy when sy <> sx -> mbad ("hypothesis H_inj_on: collision on " ^ h)
           | Some _ -> ()
           | None -> Hashtbl.add inj_tbl h sx) strings;
+      (* the syntactic contract of C04_discipline_chain: every node WriteDirty skips is a node of a trie
+         persisted earlier in this history (or needs nothing) *)
+      let ps = parts hash_memo true w in
+      if ps <> [] then Hashtbl.replace tags "discipline-clean-parts" ();
+      List.iter (fun ((r, tn) as p) ->
+          let ok = pneeds hash_memo p = [] || List.mem p !persisted || ((not r) && List.mem (true, tn) !persisted) in
+          if not ok then mbad "contract: a clean node was not persisted earlier in the history") ps;
+      persisted := all_sub true (erase w) @ !persisted;
       fst (write_dirty_node hash_memo true dcur w) in
     ignore (List.fold_left check_hyp !db ((match t with Some w -> [w] | None -> []) @ wchildren));
+    Hashtbl.replace tags "discipline-checked" ();
     Hashtbl.replace tags "hyp-checked" ();
     let db' = write_dirty_fixed hash_memo !db t wchildren in
     let db_pinned = write_dirty_pinned hash_memo !db t wchildren in
